@@ -28,6 +28,8 @@ type Case struct {
 	Class string // derivation
 	Role  string // signer | other | twin | twin_of_forger
 	Note  string // what was changed (for readers of a replay file)
+	Orig  hx.Hex // the valid signed image the case was derived from (parsed between Parse and Verify of the derived one)
+	Sign  hx.Hex // the genuine signer's certificate (used to verify the same parsed signature object first)
 }
 
 // signedBase returns a validly signed image and its signer.
@@ -344,6 +346,10 @@ func genCase(t *rapid.T) Case {
 		out = flip(img, true)
 	}
 	c.Img = out
+	if rapid.Bool().Draw(t, "withorig") {
+		c.Orig = img
+	}
+	c.Sign = signer.Cert.Raw
 	switch rapid.IntRange(0, 5).Draw(t, "role") {
 	case 0:
 		c.Role, c.Cert = "other", other.Cert.Raw
@@ -363,6 +369,28 @@ func genCase(t *rapid.T) Case {
 	}
 	return c
 }
+
+// hashedStream returns the byte stream the specification hashes for the image (reference), as a reader.
+func hashedStream(img []byte) *bytes.Reader {
+	l, err := pehash.Parse(img)
+	if err != nil {
+		return bytes.NewReader(nil)
+	}
+	var sink streamSink
+	if _, err := l.HashWith(img, &sink); err != nil {
+		return bytes.NewReader(nil)
+	}
+	return bytes.NewReader(sink.b)
+}
+
+// streamSink is a hash.Hash that just records what is written to it.
+type streamSink struct{ b []byte }
+
+func (s *streamSink) Write(p []byte) (int, error) { s.b = append(s.b, p...); return len(p), nil }
+func (s *streamSink) Sum(b []byte) []byte         { return b }
+func (s *streamSink) Reset()                      { s.b = nil }
+func (s *streamSink) Size() int                   { return 0 }
+func (s *streamSink) BlockSize() int              { return 64 }
 
 func checkCase(c Case) error {
 	cert, err := x509.ParseCertificate(c.Cert)
@@ -404,7 +432,33 @@ func checkCase(c Case) error {
 		hx.Class("lib_parse_error")
 		return nil
 	}
+	if len(c.Orig) > 0 {
+		// another image (the untampered original) is parsed while the derived one is alive
+		authenticode.Parse(bytes.NewReader(c.Orig))
+		hx.Class("original_parsed_in_between")
+	}
 	ok, verr := bin.Verify(cert)
+	// the same through signature objects that are parsed once and asked twice: first the genuine signer, then the certificate under test
+	if !(ok && verr == nil) && len(c.Sign) > 0 {
+		if sc, serr := x509.ParseCertificate(c.Sign); serr == nil {
+			if sigs, sgerr := bin.Signatures(); sgerr == nil {
+				for _, sg := range sigs {
+					a, aerr := authenticode.ParseAuthenticode(sg.Certificate)
+					if aerr != nil {
+						continue
+					}
+					a.Verify(sc, hashedStream(img))
+					if ok2, err2 := a.Verify(cert, hashedStream(img)); ok2 && err2 == nil {
+						ok, verr = true, nil
+						hx.Class("accepted_only_by_reused_signature_object")
+					}
+				}
+			}
+		}
+	}
+	if !bytes.Equal(img, []byte(c.Img)) {
+		return fmt.Errorf("verification modified the image bytes handed to Parse")
+	}
 	if ok && verr == nil {
 		hx.Class("lib_accepts/" + short)
 		if !refOK {
